@@ -242,6 +242,7 @@ pub struct Mismatch {
 
 #[derive(Clone, Debug, Default)]
 pub struct EquivStats {
+    pub unstable_skipped: usize,
     pub cells_lhs: usize,
     pub fulldim_lhs: usize,
     pub pairs: usize,
@@ -371,6 +372,19 @@ fn refine(
             })
         }
         Ref::Split(parts) => {
+            // float regime: a reference decision that compares (almost) constants within rounding
+            // distance - e.g. an argmax tie between two components that are mathematically equal on
+            // a whole region - is decided by the last bit of the library's rounding; such regions
+            // are "within rounding distance of a breakpoint" everywhere and are not judged
+            if let Some(_) = &mode.ball {
+                let lim = Q::from_f64(1e-6);
+                let tiny = Q::from_f64(1e-9);
+                let unstable = parts.iter().any(|(g, _)| g.iter().any(|r| crate::exact::norm1(&r.a) <= tiny && r.b.abs() <= lim));
+                if unstable {
+                    st.unstable_skipped += 1;
+                    return Ok(());
+                }
+            }
             for (g, sub) in parts {
                 let l = rows.len();
                 rows.extend(g.iter().cloned());
@@ -753,11 +767,14 @@ impl Ref {
                 Ref::Split(parts) => {
                     for (g, _) in parts {
                         for r in g {
-                            if r.is_zero_row() {
-                                continue;
-                            }
-                            // normalise by the 1-norm so that the value is a distance-like quantity
-                            let s = (&r.slack(x).abs()) / &crate::exact::norm1(&r.a);
+                            // a comparison of (almost) constants: its margin is the bias itself
+                            let n1 = crate::exact::norm1(&r.a);
+                            let s = if n1 <= Q::from_f64(1e-9) {
+                                r.slack(x).abs()
+                            } else {
+                                // normalise by the 1-norm so that the value is a distance-like quantity
+                                (&r.slack(x).abs()) / &n1
+                            };
                             best = Some(match best {
                                 None => s,
                                 Some(b) => Q::min(&b, &s),
